@@ -28,11 +28,12 @@ const (
 	fRST
 	fDeadline // an armed deadline expired on a parked op
 	fShortTimeout
+	fHang // the op never completes by itself: only an armed deadline or Close ends it
 	numFaultKinds
 )
 
 var faultNames = [...]string{"none", "error", "timeout", "short-write", "eof", "error-with-bytes",
-	"timeout-with-bytes", "eof-with-bytes", "close-error", "stall", "rst", "deadline-expired", "short-write-timeout"}
+	"timeout-with-bytes", "eof-with-bytes", "close-error", "stall", "rst", "deadline-expired", "short-write-timeout", "hang"}
 
 type OpFault struct {
 	Side string `json:"side"` // "r" read-side ops, "w" write-side ops, "a" all ops of the connection
@@ -160,6 +161,7 @@ type SimConn struct {
 	local  simAddr
 	remote simAddr
 	logOvf bool
+	readBroken error // a failed read stays failed (a broken connection does not heal); timeouts heal when the deadline is re-armed
 	// reach probes
 	wroteAfterClose bool
 }
@@ -184,6 +186,7 @@ type node struct {
 	lis   *Listener
 	serve func(c *SimConn)
 	refuse bool
+	ns     int // namespace: nodes of sequential dials may reuse an address
 }
 
 type NetCfg struct {
@@ -196,6 +199,8 @@ type Net struct {
 	cfg   NetCfg
 	nodes [16]node
 	nn    int
+	regNS int // namespace given to nodes registered from now on
+	curNS int // namespace in which addresses are resolved
 }
 
 func (s *Sim) NewNet(cfg NetCfg) *Net {
@@ -211,7 +216,7 @@ func (n *Net) Listen(addr string) *Listener {
 	l := &Listener{id: s.nlis, sim: s, addr: simAddr(addr)}
 	s.liss[s.nlis] = l
 	s.nlis++
-	n.nodes[n.nn] = node{addr: addr, lis: l}
+	n.nodes[n.nn] = node{addr: addr, lis: l, ns: n.regNS}
 	n.nn++
 	return l
 }
@@ -219,16 +224,22 @@ func (n *Net) Listen(addr string) *Listener {
 // Handle registers a node whose connections are served by f on a fresh
 // goroutine (started by the dialling goroutine's release).
 func (n *Net) Handle(addr string, f func(c *SimConn)) {
-	n.nodes[n.nn] = node{addr: addr, serve: f}
+	n.nodes[n.nn] = node{addr: addr, serve: f, ns: n.regNS}
 	n.nn++
 }
+
+//go:norace
+func (n *Net) getNS() int { return n.curNS }
+
+//go:norace
+func (n *Net) SetNS(v int) { n.curNS = v }
 
 // Dial connects to addr. The calling goroutine parks; the connection pair is
 // created when the scheduler releases it.
 func (n *Net) Dial(t *Task, addr string) (net.Conn, error) {
 	var nd *node
 	for i := 0; i < n.nn; i++ {
-		if n.nodes[i].addr == addr {
+		if n.nodes[i].addr == addr && n.nodes[i].ns == n.getNS() {
 			nd = &n.nodes[i]
 		}
 	}
@@ -626,11 +637,14 @@ func (c *SimConn) setDl(t time.Time, rd, wr bool, fault int) error {
 	if c.closed {
 		return errClosed
 	}
-	if fault != 0 {
+	if fault != 0 && fault != fHang {
 		return errInjected
 	}
 	if rd {
 		c.rdl = t
+		if c.readBroken == error(errInjTimeout) {
+			c.readBroken = nil
+		}
 	}
 	if wr {
 		c.wdl = t
@@ -787,7 +801,10 @@ func (s *Sim) readEnabled(r *parkRec, now time.Duration) (bool, time.Duration) {
 		}
 		wait = d - now
 	}
-	if c.closed || r.fault != 0 || r.n == 0 {
+	if r.fault == fHang {
+		return c.closed, wait
+	}
+	if c.closed || r.fault != 0 || r.n == 0 || c.readBroken != nil {
 		return true, wait
 	}
 	if st, left := q.stalled(s, "r", now); st {
@@ -817,6 +834,9 @@ func (s *Sim) writeEnabled(r *parkRec, now time.Duration) (bool, time.Duration) 
 			return true, 0
 		}
 		wait = d - now
+	}
+	if r.fault == fHang {
+		return c.closed, wait
 	}
 	if c.closed || r.fault != 0 || r.n-r.done == 0 {
 		return true, wait
@@ -858,7 +878,7 @@ func (s *Sim) apply(r *parkRec) {
 			c.closed = true
 			c.out.wclosed = true
 			c.in.rclosed = true
-			if r.fault != 0 {
+			if r.fault != 0 && r.fault != fHang {
 				r.resErr = errInjected
 				r.fault = fCloseErr
 			}
@@ -913,6 +933,15 @@ func (s *Sim) applyRead(r *parkRec, now time.Duration) {
 	case r.n == 0:
 		return
 	}
+	if r.fault == fHang {
+		// released only because the deadline passed (closed was handled above)
+		r.resErr = errDeadline
+		return
+	}
+	if c.readBroken != nil && r.fault == 0 {
+		r.resErr = c.readBroken
+		return
+	}
 	if r.fault != 0 {
 		switch r.fault {
 		case fTimeout:
@@ -923,6 +952,7 @@ func (s *Sim) applyRead(r *parkRec, now time.Duration) {
 			r.fault = fErr
 			r.resErr = errInjected
 		}
+		c.readBroken = r.resErr
 		return
 	}
 	if !c.rdl.IsZero() && now >= c.rdl.Sub(s.start) {
@@ -998,6 +1028,10 @@ func (s *Sim) applyWrite(r *parkRec, now time.Duration) {
 	left := r.n - r.done
 	if c.closed {
 		r.resErr = errClosed
+		return
+	}
+	if r.fault == fHang {
+		r.resErr = errDeadline
 		return
 	}
 	if r.fault != 0 {
